@@ -1152,9 +1152,9 @@ type handle struct {
 	spec  *common.Spec
 	// set for handles made by `chain`: the generated chain, the next (not yet applied) step whose pre-state
 	// the handle started from, and the single-corruption mutants of that step's block
-	ch    *chain.Chain
-	step  *chain.Step
-	muts  *[]chain.Mutant
+	ch   *chain.Chain
+	step *chain.Step
+	muts *[]chain.Mutant
 }
 
 type copyWorld struct {
@@ -1399,9 +1399,11 @@ func (cw *copyWorld) step(f []string) (string, bool) {
 		extra := ""
 		if r := mutate(h, f[2:]); strings.HasPrefix(r, "+") {
 			extra = " " + r[1:]
-		} else if r != "" {
+		} else if r == "bad-op" {
 			return r, true
 		}
+		// a mutation the real code refuses (full list, index out of range, …) may have been applied partly:
+		// either way the other handles must be what they were
 		var same []string
 		for _, n := range cw.others(f[1]) {
 			if observe(cw.h[n]) == before[n] {
@@ -1558,7 +1560,7 @@ func mutate(h *handle, a []string) string {
 // processing), empty slots across the next epoch / fork boundary, setters and appends.
 func genSiblings(o hreg.Opts, rng *rand.Rand, w *bufio.Writer) {
 	st := o.Stats
-	n := o.Pick(8, 120)
+	n := o.Pick(12, 150)
 	cfgs := []string{"fast@1,2,3,4", "minimal@1,1,2,3", "fast@0,0,1,2", "fast@1,1,1,1", "minimal@2,3,3,4", "fast@0,0,0,0"}
 	pols := []string{"deposits", "eventful", "default", "deposits"}
 	for i := 0; i < n; i++ {
@@ -1573,6 +1575,11 @@ func genSiblings(o hreg.Opts, rng *rand.Rand, w *bufio.Writer) {
 			warm = 8*(1+rng.Intn(4)) - 1
 		}
 		st.Add("sibling-config", strings.SplitN(cfg, ":", 2)[0])
+		if (warm+1)%8 == 0 {
+			st.Add("sibling-block-at", "epoch-start")
+		} else {
+			st.Add("sibling-block-at", "mid-epoch")
+		}
 		st.Add("sibling-policy", pol)
 		fmt.Fprintln(w, "reset")
 		fmt.Fprintf(w, "chain a %s %d %s %d %d\n", cfg, 32+8*rng.Intn(3), pol, rng.Intn(10000), warm)
@@ -1600,7 +1607,7 @@ func genSiblings(o hreg.Opts, rng *rand.Rand, w *bufio.Writer) {
 			case "slots":
 				fmt.Fprintf(w, "mut %s slots %d\n", h, []int{1, 8, 9, 17}[rng.Intn(4)])
 			case "balance":
-				fmt.Fprintf(w, "mut %s balance %d %d\n", h, rng.Intn(32), rng.Uint64()>>10)
+				fmt.Fprintf(w, "mut %s balance %d %d\n", h, rng.Intn(32), balVal(rng))
 			case "addval":
 				fmt.Fprintf(w, "mut %s addval 99\n", h)
 			}
@@ -1625,7 +1632,7 @@ func genSiblings(o hreg.Opts, rng *rand.Rand, w *bufio.Writer) {
 			case "addval":
 				fmt.Fprintf(w, "mut %s addval %d\n", h, k)
 			case "balance":
-				fmt.Fprintf(w, "mut %s balance %d %d\n", h, rng.Intn(32), rng.Uint64()>>10)
+				fmt.Fprintf(w, "mut %s balance %d %d\n", h, rng.Intn(32), balVal(rng))
 			case "exit":
 				fmt.Fprintf(w, "mut %s exit %d %d\n", h, rng.Intn(32), 50+rng.Intn(100))
 			case "eth1vote":
@@ -1633,6 +1640,19 @@ func genSiblings(o hreg.Opts, rng *rand.Rand, w *bufio.Writer) {
 			}
 		}
 	}
+}
+
+// balVal: balances that move the effective balance at the next epoch boundary (below / around / above 32 ETH)
+func balVal(rng *rand.Rand) uint64 {
+	switch rng.Intn(4) {
+	case 0:
+		return uint64(rng.Intn(16)) * 1000000000
+	case 1:
+		return 16000000000 + uint64(rng.Int63n(17000000000))
+	case 2:
+		return 31000000000 + uint64(rng.Int63n(2000000000))
+	}
+	return rng.Uint64() >> 10
 }
 
 func genCopies(o hreg.Opts, rng *rand.Rand, w *bufio.Writer) {
@@ -1667,7 +1687,7 @@ func genCopies(o hreg.Opts, rng *rand.Rand, w *bufio.Writer) {
 			case "slot":
 				fmt.Fprintf(w, "mut %s slot %d\n", h, rng.Intn(1000))
 			case "balance":
-				fmt.Fprintf(w, "mut %s balance %d %d\n", h, rng.Intn(16), rng.Uint64()>>10)
+				fmt.Fprintf(w, "mut %s balance %d %d\n", h, rng.Intn(16), balVal(rng))
 			case "exit":
 				fmt.Fprintf(w, "mut %s exit %d %d\n", h, rng.Intn(16), 50+rng.Intn(100))
 			case "root":
